@@ -30,9 +30,13 @@ import (
 	"verifharness/lib"
 )
 
-var allNames = []string{"/h/n1", "/h/n2", "/g/n3", "/g/n4"}
-var dirs = []string{"/h", "/g"}
-var dumpUniverse = []string{"/h", "/g", "/h-moved", "/g-moved", "/h/n1", "/h/n2", "/g/n3", "/g/n4", "/h-moved/n1", "/h-moved/n2", "/g-moved/n3", "/g-moved/n4"}
+// names: two directly below /h, two directly below /g, one at depth 2 and one at depth 3 below /g
+var allNames = []string{"/h/n1", "/h/n2", "/g/n3", "/g/n4", "/g/s/n5", "/g/s/t/n6"}
+var topDirs = []string{"/h", "/g"}
+var dirs = []string{"/h", "/g", "/g/s", "/g/s/t"}
+var dumpUniverse = []string{"/h", "/g", "/g/s", "/g/s/t", "/h-moved", "/g-moved", "/g-moved/s", "/g-moved/s/t",
+	"/h/n1", "/h/n2", "/g/n3", "/g/n4", "/g/s/n5", "/g/s/t/n6",
+	"/h-moved/n1", "/h-moved/n2", "/g-moved/n3", "/g-moved/n4", "/g-moved/s/n5", "/g-moved/s/t/n6"}
 
 type op struct {
 	Kind string `json:"kind"` // plain link unlink write rename rmdir
@@ -370,6 +374,31 @@ func (w *world) exec(o op) string {
 	return ""
 }
 
+// rmdirShape classifies a recursive delete: how deep below the deleted directory the deepest
+// hard-linked name sits, and whether an identity with a name inside also has names outside.
+func rmdirShape(m *model, dir string) (depth, others string) {
+	d, out := 0, false
+	for _, n := range allNames {
+		st := m.names[n]
+		if st == nil || st.Link == 0 || !strings.HasPrefix(n, dir+"/") {
+			continue
+		}
+		if k := strings.Count(n[len(dir):], "/"); k > d {
+			d = k
+		}
+		for other := range m.links[st.Link].Names {
+			if !strings.HasPrefix(other, dir+"/") {
+				out = true
+			}
+		}
+	}
+	others = "inside-only"
+	if out {
+		others = "outside"
+	}
+	return fmt.Sprint(d), others
+}
+
 type problem struct {
 	class string
 	msg   string
@@ -517,6 +546,10 @@ func (w *world) step(o op) (bool, bool) {
 			if strings.Contains(class, "linked") {
 				r.Count("linked_names_removed", 1)
 			}
+			if o.Kind == "rmdir" && class == "contains-linked" {
+				d, others := rmdirShape(before, o.A)
+				r.Count("rmdir_"+o.Mode+"_linked_depth"+d+"_"+others, 1)
+			}
 		case "write":
 			if strings.HasPrefix(class, "linked") {
 				r.Count("writes_through_linked_name", 1)
@@ -539,6 +572,9 @@ func (w *world) step(o op) (bool, bool) {
 	}
 	if o.Mode != "" {
 		sig["mode"] = o.Mode
+	}
+	if o.Kind == "rmdir" {
+		sig["depth"], sig["other_names"] = rmdirShape(before, o.A)
 	}
 	unlisted := r.Violation(sig, map[string]interface{}{"msg": p.msg, "store": w.kind, "history": w.hist, "op": o, "input_class": class,
 		"op_error": errText, "readers_see": view})
@@ -602,9 +638,9 @@ func randomOp(rng *rand.Rand, m *model) op {
 	case x < 93:
 		return op{Kind: "rename", A: existing(), B: pick()}
 	case x < 96:
-		return op{Kind: "mvdir", A: dirs[rng.Intn(2)]}
+		return op{Kind: "mvdir", A: topDirs[rng.Intn(2)]}
 	default:
-		return op{Kind: "rmdir", A: dirs[rng.Intn(2)], Mode: []string{"data", "data", "nodata"}[rng.Intn(3)]}
+		return op{Kind: "rmdir", A: dirs[rng.Intn(len(dirs))], Mode: []string{"data", "data", "nodata"}[rng.Intn(3)]}
 	}
 }
 
@@ -670,9 +706,55 @@ func runBatch(r *lib.Run, mode, kind string, shard, nshards, sampleOneIn int) {
 			}
 		}
 		rec(nil, newModel())
+		// recursive deletes with hard-linked names at depth 1, 2 and 3 below the deleted folder:
+		// every non-empty subset of {/g/n3, /g/s/n5, /g/s/t/n6} linked to an identity whose first
+		// name lives outside (/h/n1) or inside (/g/n4) the tree, each deletable folder, with and
+		// without data deletion, optionally a write through the first name before, and afterwards
+		// the removal of what is left (the record must go with the last name).
+		inside := []string{"/g/n3", "/g/s/n5", "/g/s/t/n6"}
+		nfam := 0
+		for _, first := range []string{"/h/n1", "/g/n4"} {
+			for mask := 1; mask < 8; mask++ {
+				for _, target := range []string{"/g", "/g/s", "/g/s/t"} {
+					for _, mode := range []string{"data", "nodata"} {
+						for _, withWrite := range []bool{false, true} {
+							nfam++
+							if nfam%nshards != shard || (withWrite && sampleOneIn > 1 && nfam%sampleOneIn != 0) {
+								continue
+							}
+							ops := []op{{Kind: "plain", A: first}}
+							for i, n := range inside {
+								if mask&(1<<uint(i)) != 0 {
+									ops = append(ops, op{Kind: "link", A: first, B: n})
+								}
+							}
+							if withWrite {
+								ops = append(ops, op{Kind: "write", A: first, Mode: "create"})
+							}
+							ops = append(ops, op{Kind: "rmdir", A: target, Mode: mode},
+								op{Kind: "write", A: first, Mode: "update"},
+								op{Kind: "unlink", A: first, Mode: "mount"},
+								op{Kind: "rmdir", A: "/g", Mode: "data"})
+							key := kind + "|deep"
+							for i := range ops {
+								seq++
+								ops[i].Seq = seq
+								key += "|" + ops[i].short()
+							}
+							w.runSeq(ops)
+							r.Count("sequences_deep_recursive_delete", 1)
+							r.Nontrivial(key)
+							if nfam == 29 {
+								r.Sample(map[string]interface{}{"store": kind, "ops": ops})
+							}
+						}
+					}
+				}
+			}
+		}
 		r.Note("exhaustive", fmt.Sprintf("all sequences of %d applicable ops over a %d-op alphabet (3 names + 1 spare, identities created on demand), sampled 1 in %d; sequences whose prefix already showed a listed finding are skipped", L, len(alpha), sampleOneIn))
 	case "rand":
-		nseq, nops := r.Pick(60, 600), 40
+		nseq, nops := r.Pick(45, 600), 40
 		rng := r.SubRng("c21-rand-" + kind)
 		for s := 0; s < nseq; s++ {
 			seed := rng.Int63()
@@ -722,7 +804,7 @@ func runBatch(r *lib.Run, mode, kind string, shard, nshards, sampleOneIn int) {
 
 func main() {
 	r := lib.Start("C21", "exploration")
-	r.SetRule("histories of plain-create / link (UpdateEntry old + CreateEntry new, as Dir.Link) / unlink (mount: IsDeleteData=counter<=1, http: true) / write through one name (CreateEntry or UpdateEntry) / AtomicRenameEntry / overwrite of a linked name by a plain file or by a name of another identity / recursive directory delete / directory renamed away and back, over 4 names in 2 directories with link identities created on demand, on a real Filer over leveldb/leveldb2/leveldb3; after every op each name is read (FindEntry + parent listing) and each identity's KV record decoded and compared with the model. distinct = distinct (store, op sequence); non-trivial = at least one applicable op executed")
+	r.SetRule("histories of plain-create / link (UpdateEntry old + CreateEntry new, as Dir.Link) / unlink (mount: IsDeleteData=counter<=1, http: true) / write through one name (CreateEntry or UpdateEntry) / AtomicRenameEntry / overwrite of a linked name by a plain file or by a name of another identity / recursive directory delete (linked names at depth 1, 2 and 3 below the deleted folder, other names of the identity inside or outside the tree, with and without data deletion) / directory renamed away and back, over 6 names in 4 directories with link identities created on demand, on a real Filer over leveldb/leveldb2/leveldb3; after every op each name is read (FindEntry + parent listing) and each identity's KV record decoded and compared with the model. distinct = distinct (store, op sequence); non-trivial = at least one applicable op executed")
 	r.Assume("content and attributes compared: chunk file ids, mtime (seconds), file size, extended attribute; the link counter a client writes is the one it read plus one (single client)")
 	r.Assume("renaming one name of an identity onto another name of the same identity, and linking a name onto itself, are not generated (POSIX defines them as no-ops; the statement does not say)")
 
@@ -764,7 +846,7 @@ func main() {
 		jobs = append(jobs, job{fmt.Sprintf("exh-leveldb-%d", s), []string{"exh", "leveldb", fmt.Sprint(s), fmt.Sprint(exhShards), fmt.Sprint(r.Pick(1, 3))}})
 	}
 	for _, k := range []string{"leveldb2", "leveldb3"} {
-		jobs = append(jobs, job{"exh-" + k, []string{"exh", k, "0", "1", fmt.Sprint(r.Pick(6, 24))}})
+		jobs = append(jobs, job{"exh-" + k, []string{"exh", k, "0", "1", fmt.Sprint(r.Pick(8, 24))}})
 	}
 	for _, k := range lib.FilerStoreKinds {
 		jobs = append(jobs, job{"rand-" + k, []string{"rand", k, "0", "1", "1"}})
@@ -781,8 +863,11 @@ func main() {
 		}(j)
 	}
 	wg.Wait()
-	var links, removed, writes int64
+	var links, removed, writes, deep int64
 	for _, j := range jobs {
+		for _, d := range []string{"2", "3"} {
+			deep += r.Counter(j.label + ".rmdir_data_linked_depth" + d + "_outside")
+		}
 		links += r.Counter(j.label + ".links_made")
 		removed += r.Counter(j.label + ".linked_names_removed")
 		writes += r.Counter(j.label + ".writes_through_linked_name")
@@ -790,6 +875,10 @@ func main() {
 	r.Count("total_links_made", links)
 	r.Count("total_linked_names_removed", removed)
 	r.Count("total_writes_through_linked_name", writes)
+	r.Count("total_recursive_deletes_with_data_of_linked_names_at_depth_2_or_3_with_names_outside", deep)
+	if deep == 0 {
+		r.Inconclusive("no recursive delete with data deletion of a hard-linked name at depth >= 2 (other names outside the tree) was observed to behave as the model says")
+	}
 	if links == 0 || removed == 0 || writes == 0 {
 		r.Inconclusive("no link / removal of a linked name / write through a linked name was observed to behave as the model says")
 	}
